@@ -104,6 +104,18 @@ EXTRA = {
 for k, (t, l) in EXTRA.items():
     tech, text, note, ref = CHECKS[k]
     CHECKS[k] = (tech + t, text + l, note, ref)
+
+# fourth round (application glue)
+EXTRA2 = {
+ "C06": " End to end also: aircraft heard by both receivers, aircraft without altitude, delayed ground traffic, addresses of one family, and one fast aircraft heard 18 s apart by two receivers whose Beast clocks differ (must not be paired; judged only if the printed arrival times are more than 10.5 s apart).",
+ "C07": " End to end also: with a df filter and an --output file, the 24 longest Comm-B records of 200 000 generated ones heard by two receivers, and the stored history of aircraft that identified themselves read from /track with the strict parser.",
+ "C10": " End to end also through one source with windows of 1.2-3.1 s: two printed records of the same frame never have first arrivals closer than the window.",
+ "C11": " End to end also: one filter in the configuration file and the other on the command line, history kept for the default time / N minutes / not at all, and the stored history served by /track must hold exactly the kept extended-squitter / Comm-B records.",
+ "C12": " End to end also with output filters and with no history kept (the table must not depend on either), frames received twice in a row (count = printed records), and real positions from a region owned by each aircraft.",
+}
+for k, l in EXTRA2.items():
+    tech, text, note, ref = CHECKS[k]
+    CHECKS[k] = (tech, text + l, note, ref)
 PENDING_REASON = "check not yet built in this session (work in progress; see DESIGN.md 5 for the planned check)"
 
 props = [json.loads(l) for l in open(os.path.join(HERE, "properties.jsonl"))]
